@@ -493,4 +493,37 @@ def deviationsDeviate : Bool :=
       | none => false
       | some r => decide (run natArith d.shape d.wm d.wargs d.wsrc ≠ r))
 
+/-! ### which struct an `op=` statement is compiled to (`op_assign!`, src/interpreter/src/statements.rs) -/
+
+structure OpArm where
+  /-- the subscript pattern of the arm: `["Formula"]`, `["Formula", "All"]`, `["Range"]`, `["Range", "All"]` -/
+  subs : List String
+  /-- the shape of the index value the arm is for (`""`: no match on the shape) -/
+  shape : String
+  /-- the struct whose `compile` is pushed on the plan -/
+  struct : String
+  /-- the struct's name is built from the statement's operator: `[<$op AssignRange>]` -/
+  perOp : Bool
+deriving DecidableEq, Repr
+
+/-- arms that compile a struct of plain assignment under `op=`: the statement then stores the source instead of
+    combining it with the old value (findings C04-D1, C04-D2; recorded in known_findings.json under C04-D8) -/
+def knownArmDeviations : List (OpArm × String) :=
+  [(⟨["Formula"], "1,1", "MatrixAssignScalar", false⟩, "C04-D1"),
+   (⟨["Formula", "All"], "1,1", "MatrixAssignScalarAll", false⟩, "C04-D2")]
+
+/-- one subscript: the `…AssignRange` family (kernels `<op>_assign_1d_range*`); a subscript and `:`: the
+    `…AssignRangeAll` family (kernels `<op>_assign_2d_vector_all*`) -/
+def armOk (a : OpArm) : Bool :=
+  a.perOp &&
+  ((a.subs.length == 1 && a.struct == "AssignRange") ||
+   (a.subs.length == 2 && a.subs[1]? == some "All" && a.struct == "AssignRangeAll"))
+
+def armsOk (arms : List OpArm) (uses : List (String × String)) : Bool :=
+  arms.all (fun a => if knownArmDeviations.any (fun d => d.1.subs == a.subs && d.1.shape == a.shape)
+                     then knownArmDeviations.any (fun d => decide (d.1 = a)) && !(armOk a)
+                     else armOk a) &&
+  knownArmDeviations.all (fun d => arms.any (fun a => decide (d.1 = a))) &&
+  decide (uses = [("add_assign", "Add"), ("sub_assign", "Sub"), ("mul_assign", "Mul"), ("div_assign", "Div")])
+
 end MechVerif.AssignIR
